@@ -6,7 +6,7 @@ from checks.c10 import RegistryWorld
 from checks.hubmodel import HubWorld, HUB, hub_querier_template, effects
 
 CRATES = ['basset_sei_validators_registry', 'basset_sei_hub']
-BOUNDS = {'quick': {'registry size': '1..3 validators'}, 'thorough': {'registry size': '1..4 validators'}}
+BOUNDS = {'quick': {'registry size': '1..3 validators', 'RedelegateProxy entries at the hub': '0..2 and 8'}, 'thorough': {'registry size': '1..4 validators', 'RedelegateProxy entries at the hub': '0..3, 8, 12'}}
 ASSUMPTIONS = ['A-ADDR', 'E4: the staking module reports the hub\'s real delegations; can_redelegate as reported by the chain',
                'a Redelegate staking message moves exactly its amount between validators (environment model, DESIGN 3.4)']
 OUTSIDE = ['registries larger than the bound', 'the chain-side effect of UpdateGlobalIndex in the same transaction is C19']
@@ -81,7 +81,7 @@ def ob_remove(n):
 
 def ob_hub_proxy(ctx):
     """hub RedelegateProxy from the registry: one StakingMsg::Redelegate per entry, same src/dst/amount, no state change."""
-    for nred in (0, 1, 2):
+    for nred in ((0, 1, 2, 8) if ctx.tier == 'quick' else (0, 1, 2, 3, 8, 12)):
         W = HubWorld(ctx, n_validators=1, n_delegations=1)
         W.install()
         I = W.I
@@ -109,7 +109,7 @@ def ob_hub_proxy(ctx):
                            'entry forwarded 1:1', 'proxy:forward'))
             ctx.require_all(st, cl, W.mv)
         ctx.need_witness('proxy Ok path (%d entries)' % nred, n > 0)
-    ctx.witness_found('proxy explored with 0..2 entries')
+    ctx.witness_found('proxy explored with 0..2 and 8 entries (thorough: 0..3, 8, 12)')
 
 
 OBLIGATIONS = [('remove_n%d' % n, ob_remove(n)) for n in (1, 2, 3, 4)] + [('hub_redelegate_proxy', ob_hub_proxy)]
